@@ -171,6 +171,11 @@ func (node *DateNode) Sub(node2 *DateNode) (min Duration, max Duration, errs err
 }
 
 func (node *DateNode) Warnings() Warnings {
+	// A date that is missing is not a date that cannot be parsed.
+	if node == nil {
+		return nil
+	}
+
 	if !node.IsValid() {
 		return Warnings{
 			NewUnparsableDateWarning(node),
